@@ -38,6 +38,76 @@ func (k *knowledge) getRange(t *Term) *rng {
 	return r
 }
 
+// constLeaves returns the possible values of an ite-tree whose leaves are all constants (nil if t is not
+// such a tree or has more than limit leaves).
+func constLeaves(t *Term, limit int) []uint64 {
+	var out []uint64
+	var walk func(t *Term) bool
+	walk = func(t *Term) bool {
+		switch t.Op {
+		case OpConst:
+			out = append(out, t.Val)
+			return len(out) <= limit
+		case OpIte:
+			return walk(t.A[1]) && walk(t.A[2])
+		case OpZExt:
+			return walk(t.A[0])
+		}
+		return false
+	}
+	if t.Op != OpIte && !(t.Op == OpZExt && t.A[0].Op == OpIte) {
+		return nil
+	}
+	if !walk(t) {
+		return nil
+	}
+	return out
+}
+
+// decideBySet decides a comparison between a small-value-set term and a constant.
+func decideBySet(c *Term) (bool, bool) {
+	a, b := c.A[0], c.A[1]
+	var vals []uint64
+	var K uint64
+	swapped := false
+	switch {
+	case b.IsConst():
+		vals, K = constLeaves(a, 40), b.Val
+	case a.IsConst():
+		vals, K, swapped = constLeaves(b, 40), a.Val, true
+	}
+	if vals == nil {
+		return false, false
+	}
+	all, none := true, true
+	for _, v := range vals {
+		var r bool
+		x, y := v, K
+		if swapped {
+			x, y = K, v
+		}
+		switch c.Op {
+		case OpULt:
+			r = x < y
+		case OpULe:
+			r = x <= y
+		case OpEq:
+			r = x == y
+		default:
+			return false, false
+		}
+		all = all && r
+		none = none && !r
+	}
+	if all {
+		return true, true
+	}
+	if none {
+		return true, false
+	}
+	return false, false
+}
+
 // decide returns (known, value).
 func (k *knowledge) decide(c *Term) (bool, bool) {
 	if c.IsConst() {
@@ -45,6 +115,11 @@ func (k *knowledge) decide(c *Term) (bool, bool) {
 	}
 	if v, ok := k.truth[c.ID]; ok {
 		return true, v
+	}
+	if c.Op == OpULt || c.Op == OpULe || (c.Op == OpEq && c.A[0].W != 0) {
+		if kn, v := decideBySet(c); kn {
+			return true, v
+		}
 	}
 	switch c.Op {
 	case OpNot:
@@ -69,6 +144,9 @@ func (k *knowledge) decide(c *Term) (bool, bool) {
 			return true, false
 		}
 	case OpULt:
+		if kn, v := k.decideOffsetCmp(c); kn {
+			return true, v
+		}
 		alo, ahi, _ := k.rangeOf(c.A[0])
 		blo, bhi, _ := k.rangeOf(c.A[1])
 		if ahi < blo {
@@ -78,6 +156,9 @@ func (k *knowledge) decide(c *Term) (bool, bool) {
 			return true, false
 		}
 	case OpULe:
+		if kn, v := k.decideOffsetCmp(c); kn {
+			return true, v
+		}
 		alo, ahi, _ := k.rangeOf(c.A[0])
 		blo, bhi, _ := k.rangeOf(c.A[1])
 		if ahi <= blo {
@@ -243,4 +324,72 @@ func (k *knowledge) setHi(t *Term, v uint64) {
 		r.hi = v
 		k.tighten(r)
 	}
+}
+
+// decideOffsetCmp handles (x + c) < K, (x + c) <= K, K < (x + c), K <= (x + c) (unsigned, modulo 2^w):
+// the set of x satisfying it is one wrapped interval; if x's known range lies entirely inside or
+// entirely outside, the comparison is decided.
+func (k *knowledge) decideOffsetCmp(c *Term) (bool, bool) {
+	a, b := c.A[0], c.A[1]
+	var sum *Term
+	var K uint64
+	var lowSide bool // true: sum is on the smaller side (sum < K / sum <= K)
+	switch {
+	case a.Op == OpAdd && a.A[1].IsConst() && b.IsConst():
+		sum, K, lowSide = a, b.Val, true
+	case b.Op == OpAdd && b.A[1].IsConst() && a.IsConst():
+		sum, K, lowSide = b, a.Val, false
+	default:
+		return false, false
+	}
+	x, off := sum.A[0], sum.A[1].Val
+	w := sum.W
+	if w == 0 || w > 63 {
+		return false, false // keep the modular arithmetic inside uint64
+	}
+	M := uint64(1) << w
+	// values v of the sum for which the comparison holds form [vlo, vhi]
+	var vlo, vhi uint64
+	switch {
+	case lowSide && c.Op == OpULt: // sum < K
+		if K == 0 {
+			return true, false
+		}
+		vlo, vhi = 0, K-1
+	case lowSide: // sum <= K
+		vlo, vhi = 0, K
+	case c.Op == OpULt: // K < sum
+		if K >= M-1 {
+			return true, false
+		}
+		vlo, vhi = K+1, M-1
+	default: // K <= sum
+		vlo, vhi = K, M-1
+	}
+	if vhi >= M {
+		vhi = M - 1
+	}
+	// x = v - off (mod M): x ranges over the wrapped interval [xs, xs+len-1]
+	length := vhi - vlo + 1
+	if length >= M {
+		return true, true
+	}
+	xs := (vlo + M - off%M) % M
+	lo, hi, _ := k.rangeOf(x)
+	if lo > hi || hi >= M {
+		return false, false
+	}
+	inside := func(p uint64) bool { return (p+M-xs)%M < length }
+	// the known range [lo,hi] is contiguous; it is inside the wrapped interval iff both ends are inside and
+	// the interval is at least as long as the distance covered without leaving it
+	if inside(lo) && inside(hi) && (hi-lo) <= ((hi+M-xs)%M) {
+		return true, true
+	}
+	// entirely outside: the complement is the wrapped interval starting at xs+length with length M-length
+	cs, clen := (xs+length)%M, M-length
+	outside := func(p uint64) bool { return (p+M-cs)%M < clen }
+	if outside(lo) && outside(hi) && (hi-lo) <= ((hi+M-cs)%M) {
+		return true, false
+	}
+	return false, false
 }
